@@ -590,6 +590,14 @@ int main(int argc, char** argv) {
     in.cls = 2; in.gen = "rect.spike-on-extreme-row";
     run_input(g, in, i % 3 == 0);
   }
+  //  * rectangles hung on one row (gen_row_rects): overlapping, opposed horizontal stretches of the solution on one scanline with
+  //    intermediate vertices where another stretch begins (horizontal joins)
+  for (int i = 0; i < 3 * n_rect; ++i) {
+    gen_row_rects(g, in);
+    int64_t step = g.pick(std::vector<int64_t>{1, 1, 2, 1000});
+    scale_paths(in.subj, step); scale_paths(in.clip, step);
+    run_input(g, in, i % 2 == 0);
+  }
   for (int i = 0; i < n_deg / 8; ++i) {
     gen_nested(g, in, (int)g.range(1, 8), g.coin());
     run_input(g, in, false);
